@@ -71,7 +71,9 @@ impl DeferredRead {
                         self.vec.capacity(),
                         h.variation,
                         h.details.qualifier()
-                    )
+                    );
+                    // same indication as a READ that is not deferred and exceeds the selection capacity
+                    iin2 = Iin2::PARAMETER_ERROR;
                 }
             } else {
                 iin2 = Iin2::PARAMETER_ERROR;
